@@ -397,22 +397,42 @@ def _body_shards(body, shard):
     return out
 
 
+def _flatten(body, shards, results):
+    """Executed leaf operations of a (possibly nested) block with their shard and result.  Inner blocks only
+    contribute what they executed: effects of an inner block persist in the outer transaction even if it raised."""
+    out = []
+    for sub, sh, r in zip(body, shards, results):
+        if sub['op'] == 'txn':
+            if not (isinstance(r, (list, tuple)) and r[0] == 'ok'):
+                return None
+            inner = json.loads(r[1].split(':', 1)[1])
+            flat = _flatten(sub['body'], sh, inner)
+            if flat is None:
+                return None
+            out.extend(flat)
+        elif sub['op'] != 'sleep':
+            out.append((sub, sh, tuple(r) if isinstance(r, list) else r))
+    return out
+
+
 def split_per_shard(history):
     """Weaker model for FanoutCache blocks: one atomic sub-block per shard
-    (what a shard-by-shard commit provides).  Only flat committed blocks are
-    split; others are kept whole."""
+    (what a shard-by-shard commit provides).  Committed blocks (nested ones
+    flattened) are split; others are kept whole."""
     out = []
     for h in history:
         op = h['op']
         if op.get('op') != 'txn' or 'shards' not in h or h['res'] is None or h['res'][0] != 'ok' \
-                or not h['res'][1].startswith('commit:') or any(isinstance(s, list) for s in h['shards']):
+                or not h['res'][1].startswith('commit:'):
             out.append(h)
             continue
         results = json.loads(h['res'][1][7:])
+        flat = _flatten(op['body'], h['shards'], results)
+        if flat is None:
+            out.append(h)
+            continue
         groups = {}
-        for sub, sh, r in zip(op['body'], h['shards'], results):
-            if sub['op'] == 'sleep':
-                continue
+        for sub, sh, r in flat:
             groups.setdefault(sh, []).append((sub, r))
         if len(groups) <= 1:
             out.append(h)
